@@ -758,3 +758,103 @@ func TestStdFallbackChild(t *testing.T) {
 		classify("TestStdFallbackChild", script, labels)
 	})
 }
+
+// TestListDestinations: a destination may itself be a list of writers - that is what GetWriter() and GetWriterBy(l)
+// of another logger hand out (child.SetWriter(parent.GetWriter()) makes a child write where its parent writes). Every
+// member of such a list is a destination of the record: it gets the record once, and a member that asks to be told
+// the severity is told it immediately before its Write.
+func TestListDestinations(t *testing.T) {
+	rapid.Check(t, func(t *rapid.T) {
+		defer vlib.Canon()()
+		registerCustom()
+		log := vlib.NewEventLog()
+		pool := make([]vlib.Writer, 8)
+		for i := range pool {
+			pool[i] = vlib.NewRec(log, i, i) // kinds cycle: plain, closer, level-settable, closer+level-settable
+		}
+		lender := slog.New("lender").SetLevel(slog.AlwaysLevel).SetColorMode(false)
+		pick := func(label string) []int {
+			return rapid.SliceOfNDistinct(rapid.IntRange(0, len(pool)-1), 1, 3, rapid.ID[int]).Draw(t, label)
+		}
+		normal, errs := pick("lenderNormal"), pick("lenderError")
+		for i, w := range normal {
+			if i == 0 {
+				lender.SetWriter(pool[w])
+			} else {
+				lender.AddWriter(pool[w])
+			}
+		}
+		for i, w := range errs {
+			if i == 0 {
+				lender.SetErrorWriter(pool[w])
+			} else {
+				lender.AddErrorWriter(pool[w])
+			}
+		}
+		lg := slog.New("borrower").SetLevel(slog.AlwaysLevel).SetColorMode(false)
+		how := rapid.SampledFrom([]string{"set", "add-after-own", "hand-made"}).Draw(t, "how")
+		wantNormal, wantErr := append([]int(nil), normal...), append([]int(nil), errs...)
+		switch how {
+		case "set":
+			lg.SetWriter(lender.GetWriter())
+			lg.SetErrorWriter(lender.GetWriterBy(slog.ErrorLevel))
+		case "add-after-own":
+			own := rapid.IntRange(0, len(pool)-1).Draw(t, "ownWriter")
+			lg.SetWriter(pool[own]).SetErrorWriter(pool[own])
+			lg.AddWriter(lender.GetWriter())
+			lg.AddErrorWriter(lender.GetWriterBy(slog.ErrorLevel))
+			wantNormal, wantErr = append([]int{own}, normal...), append([]int{own}, errs...)
+		default:
+			var ln, le slog.LWs
+			for _, w := range normal {
+				ln = append(ln, slog.NewLogWriter(pool[w]))
+			}
+			for _, w := range errs {
+				le = append(le, slog.NewLogWriter(pool[w]))
+			}
+			lg.SetWriter(ln)
+			lg.SetErrorWriter(le)
+		}
+		sevs := []slog.Level{slog.InfoLevel, slog.ErrorLevel, slog.WarnLevel, slog.DebugLevel, slog.AlwaysLevel, slog.FailLevel, slog.OKLevel, custErr, custStd, custPln}
+		for n := 0; n < 4; n++ {
+			sev := rapid.SampledFrom(sevs).Draw(t, "severity")
+			want := wantNormal
+			if errorClass[int(sev)] || sev == custErr {
+				want = wantErr
+			}
+			before := log.Len()
+			tok := fmt.Sprintf("list-probe-%d-tok", n)
+			lg.LogAttrs(context.Background(), sev, tok)
+			evs := log.Snapshot()[before:]
+			got := map[int]int{}
+			for i, e := range evs {
+				if e.Kind != "write" {
+					continue
+				}
+				got[e.W]++
+				if !bytes.Contains(e.Payload, []byte(tok)) || !bytes.HasSuffix(e.Payload, []byte("\n")) {
+					t.Fatalf("C03 list destinations (%s, lender normal=%v error=%v): severity %d: w%d got %q instead of the record", how, normal, errs, int(sev), e.W, e.Payload)
+				}
+				if !settable(e.W) {
+					continue
+				}
+				told := false
+				for j := i - 1; j >= 0; j-- {
+					if evs[j].W == e.W && evs[j].Kind != "write" {
+						told = evs[j].Kind == "setlevel" && evs[j].Level == sev
+						break
+					}
+				}
+				if !told {
+					vlib.Discrep(t, "C03/notify", "C03 list destinations (%s, lender normal=%v error=%v): LevelSettable destination w%d inside a writer list was not told severity %d immediately before its Write (events=%v)", how, normal, errs, e.W, int(sev), evs)
+				}
+			}
+			for w := range pool {
+				if got[w] != count(want, w) {
+					vlib.Discrep(t, "C03/route", "C03 list destinations (%s, lender normal=%v error=%v): severity %d: w%d received the record %d times, want %d (destinations %v)", how, normal, errs, int(sev), w, got[w], count(want, w), want)
+				}
+			}
+		}
+		vlib.Case("TestListDestinations", fmt.Sprintf("%s/%v/%v", how, normal, errs), "list-destination/"+how)
+	})
+}
